@@ -4,6 +4,7 @@ import (
 	"context"
 	"encoding/hex"
 	"fmt"
+	"math"
 
 	"github.com/alephium/wormhole-fork/node/pkg/common"
 	"github.com/alephium/wormhole-fork/node/pkg/db"
@@ -81,9 +82,24 @@ func decodeEmitterAddress(emitterAddress string) (*vaa.Address, error) {
 	return &addr, nil
 }
 
+// validateChainID rejects chain ids that do not fit the 16-bit wire format instead of letting them
+// wrap around to another chain's identifier.
+func validateChainID(chainId publicrpcv1.ChainID) error {
+	if chainId.Number() < 0 || chainId.Number() > math.MaxUint16 {
+		return status.Error(codes.InvalidArgument, fmt.Sprintf("chain id %d is out of range", chainId.Number()))
+	}
+	return nil
+}
+
 func (s *PublicrpcServer) GetSignedVAA(ctx context.Context, req *publicrpcv1.GetSignedVAARequest) (*publicrpcv1.GetSignedVAAResponse, error) {
 	if req.MessageId == nil {
 		return nil, status.Error(codes.InvalidArgument, "no message ID specified")
+	}
+	if err := validateChainID(req.MessageId.EmitterChain); err != nil {
+		return nil, err
+	}
+	if err := validateChainID(req.MessageId.TargetChain); err != nil {
+		return nil, err
 	}
 
 	emitterAddress, err := decodeEmitterAddress(req.MessageId.EmitterAddress)
@@ -120,6 +136,12 @@ func validateBatchSize(size int) error {
 
 func (s *PublicrpcServer) GetNonGovernanceVAABatch(ctx context.Context, req *publicrpcv1.GetNonGovernanceVAABatchRequest) (*publicrpcv1.GetNonGovernanceVAABatchResponse, error) {
 	if err := validateBatchSize(len(req.Sequences)); err != nil {
+		return nil, err
+	}
+	if err := validateChainID(req.EmitterChain); err != nil {
+		return nil, err
+	}
+	if err := validateChainID(req.TargetChain); err != nil {
 		return nil, err
 	}
 
